@@ -25,7 +25,7 @@ META = {
                   'the process never dies in the logging code — PROVIDED fmt.Sprintf("%v") returns on every value (fmt is a parameter of the model). '
                   'SprintV never consults fmt for nil pointers / nil interfaces; CallSlice-on-variadic / Call-otherwise forwards every deliverable '
                   'argument vector unchanged.',
-    'level_note': 'Partial because fmt, reflect.MakeFunc/Call and the Go ABI are modelled (reflect by its documented argument checks), not verified; '
+    'level_note': 'Hypotheses of the theorems: fmt returns on every value (F13 otherwise), the user String()/Error() methods fmt runs record nothing and do not call the mock (F27 otherwise), the mocked function is not in the hand-collected list loggerCallees (F14/F15 otherwise); one mocker per environment, sequential callers, panics as classes (two-mocker lanes and panic-value kinds are observed only). Partial because fmt, reflect.MakeFunc/Call and the Go ABI are modelled (reflect by its documented argument checks), not verified; '
                   'values are trees of tokens, so cyclic heaps exist only as opaque tokens. Known finding F13: a slice/map cycle in an argument or result '
                   'makes fmt recurse without bound, only with debug open (Findings/C19F13.lean is the counter-example to the full statement). '
                   'The model is tied to the code by differential execution (tie X), bounded by the generators whose distribution is in the evidence.',
@@ -42,7 +42,9 @@ NODES = ['nil', 'n0', 'n1', 'n2', 'n3']
 ANY_SAFE = ['nil', 'i5', 'i-2', 'i0', 'tab', 't', 'pn0', 'pn1', 'pn2', 'pn3', 'tn'] + [f'z{k}' for k in range(16)]
 ANY_CYC = ['z20', 'z21', 'z22', 'z23']
 USER_METHOD = ['z16', 'z17']          # String() / Error() with an observable effect
-USER_RE = re.compile(r'\bz1[67]\b')
+USER_RE = re.compile(r'\bz1[678]\b')
+REENT_RE = re.compile(r'\bz18\b')     # String() makes one nested call of the mocked function: outside the model (render cannot call back)
+NEST_RE = re.compile(r'!re\{.*?\}!')
 F27_KEY = 'F27-c19-fmt-runs-user-methods'
 # how a process in unbounded recursion dies: stack limit, or the collector tripping over the runaway stack first
 DEATH_BY_RECURSION = ('CRASH:stack-overflow', 'CRASH:fatal')
@@ -150,6 +152,15 @@ def gen_scenario(rng, tgt, malformed=False, cyc=False):
     return f'{tgt} ' + ' ; '.join(ops)
 
 
+def gen_reentrant(rng):
+    """an argument whose String() calls the mocked function once more while the debug line is rendered (z18)"""
+    t = rng.choice(['fp', 'ip'])
+    ops = ['apply echo'] + [f'call {rng.choice(NODES)},{rng.choice(["z18", "z18", "i5", "tab"])}' for _ in range(rng.choice([2, 3, 4]))] + ['cancel']
+    if rng.chance(1, 3):
+        ops.insert(rng.below(len(ops)), 'dbg ' + rng.choice(['on', 'off', 'tron']))
+    return f'{t} ' + ' ; '.join(ops)
+
+
 def gen_void(rng):
     """a function without results (f0): callbacks, Return(), calls"""
     ops = []
@@ -188,6 +199,8 @@ def gen_streams(tier, rng, scale=1):
     bodies += [gen_void(r) for _ in range((40 if tier == 'quick' else 800) * scale)]
     r = rng.fork('usermethod')
     bodies += [gen_usermethod(r) for _ in range((12 if tier == 'quick' else 200) * scale)]
+    r = rng.fork('reentrant')
+    bodies += ['fp apply echo ; call n1,z18 ; call n2,tab ; cancel'] + [gen_reentrant(r) for _ in range((8 if tier == 'quick' else 100) * scale)]
     r = rng.fork('nohome')
     hb = list(NOHOME_CORPUS)
     for i in range((120 if tier == 'quick' else 1500) * scale):
@@ -451,7 +464,7 @@ def execute(bodies, risky, sv, tag='c19'):
             for idx, cfg in chunk:
                 one = os.path.join(C.BUILD, f'{tag}.risky{k}.ops')
                 open(one, 'w').write('\n' * idx + ops[idx] + '\n')
-                r = run_cfg(binary, cfg, one, len(ops), [idx], f'{tag}.risky{k}', maxstack=64 << 20, timeout=300)
+                r = run_cfg(binary, cfg, one, len(ops), [idx], f'{tag}.risky{k}', maxstack=64 << 20, timeout=90)   # typical 1-3 s; a hang is re-run once (run_cfg)
                 impl[idx] = r.get(idx)
         except Exception as e:  # noqa: BLE001
             errs.append(e)
@@ -497,7 +510,7 @@ def oracle(body, g, impl):
 
 
 def strip_user(t):
-    return t.replace('!str', '').replace('!err', '')
+    return NEST_RE.sub('', t).replace('!str', '').replace('!err', '')
 
 
 P_RE = re.compile(r' P=\S+')
@@ -508,6 +521,8 @@ def norm_for_model(impl_obs, model_obs):
     observation of the implementation only (the model's panics are classes)."""
     if impl_obs is not None:
         impl_obs = P_RE.sub('', impl_obs, count=1)
+    if model_obs == 'bad-op' and impl_obs is not None and impl_obs != 'bad-op':
+        return None        # a line the model does not cover (caller decides whether that is allowed)
     if impl_obs is not None and impl_obs.startswith('CRASH:') and model_obs is not None and '->CRASH' in model_obs:
         return True
     return impl_obs == model_obs
@@ -542,7 +557,10 @@ def assess(ops, impl, model, groups, out, report=True):
     diffs = []
     if model is not None:
         for i, op in enumerate(ops):
-            if not norm_for_model(impl[i], model[i] if i < len(model) else None):
+            ok = norm_for_model(impl[i], model[i] if i < len(model) else None)
+            if ok is None and REENT_RE.search(op):
+                continue       # bounded re-entry through a user String(): judged by the oracle only
+            if not ok:
                 diffs.append((i, op, impl[i], model[i] if i < len(model) else None))
     return bad, diffs
 
